@@ -759,20 +759,36 @@ def _size(v):
     return (len(i["signature"]), len(cs), len(i.get("fixed_gamma_minus") or {}) + len(i.get("fixed_gamma_plus") or {}), sum(i["prior"].values()), len(json.dumps(cs)))
 
 
+def _carve(v):
+    """class of the INPUT (not of the diagnosis): which special shapes the failing input has"""
+    t = v.get("tags") or ()
+    parts = []
+    if "unfalsifiable-conditional" in t:
+        parts.append("unfalsifiable-conditional")
+    if "fixed-gamma-minus" in t or "fixed-gamma-plus" in t:
+        parts.append("fixed-gamma")
+    return "+".join(parts) or None
+
+
 def _order(violations):
-    """one smallest example of every (kind, tags) class first, then the rest (smallest first)"""
-    groups = {}
+    """the smallest example of every (kind, input class) first, then the smallest of every (kind, tags), then the rest"""
     for v in violations:
-        groups.setdefault((v["kind"], tuple(v.get("tags") or ())), []).append(v)
-    for g in groups.values():
-        g.sort(key=_size)
-    heads = sorted((g[0] for g in groups.values()), key=lambda v: (KINDS.index(v["kind"]) if v["kind"] in KINDS else 99, _size(v)))
-    # first: the smallest example per kind, then the other class heads, then everything else
-    seen_kind, first, second = set(), [], []
-    for v in sorted(heads, key=_size):
-        (first if v["kind"] not in seen_kind else second).append(v)
-        seen_kind.add(v["kind"])
-    rest = sorted((v for g in groups.values() for v in g[1:]), key=_size)
+        v["carve_out"] = _carve(v)
+    kidx = lambda v: KINDS.index(v["kind"]) if v["kind"] in KINDS else 99  # noqa: E731
+    ranked = sorted(violations, key=lambda v: (_size(v), kidx(v)))
+    first, second, rest, seen1, seen2 = [], [], [], set(), set()
+    for v in ranked:
+        k1 = (v["kind"], v["carve_out"])
+        k2 = (v["kind"], tuple(v.get("tags") or ()))
+        if k1 not in seen1:
+            first.append(v)
+        elif k2 not in seen2:
+            second.append(v)
+        else:
+            rest.append(v)
+        seen1.add(k1)
+        seen2.add(k2)
+    first.sort(key=lambda v: (kidx(v), len((v["carve_out"] or "").split("+")), _size(v)))
     return first + second + rest
 
 
